@@ -28,7 +28,7 @@ TInit == LET TT == Traces
                /\ obs = [ok |-> TRUE, live |-> TRUE, r |-> 0, ch |-> {}]
                /\ inb = FALSE /\ fin = FALSE
 
-(* valid='norm' on observed value classes: "big" (> 2e-8) valid, "zero"/"tiny" (< 0.5e-8) invalid, "band" unconstrained *)
+(* valid='norm' on observed value classes: "big" (> 1.001e-8) valid, "zero"/"tiny" (< 0.999e-8) invalid, "band" unconstrained *)
 NormOnClasses(cls, valid) == \A k \in DOMAIN cls : cls[k] # "band" => (valid[k] <=> cls[k] = "big")
 
 (* the clauses of the property on the observed registers (evaluated at the start of the   *)
